@@ -8,7 +8,8 @@ open Gen.Iapws Model.Thermo Proofs.Thermo
 /-! ### viscosity -/
 
 /-- the array `power_array(x, ticv)` written out -/
-theorem ticv_array (x : ℝ) : powerArray x ticv = [1, x, x * x, x * x * x, 1 / x] := by
+theorem ticv_array (x : ℝ) : ∃ last, powerArray x ticv = [1, x, x * x, x * x * x, last] := by
+  refine ⟨if le x (ofInt 0 : ℝ) && le (ofInt 0 : ℝ) x then (ofInt 1 : ℝ) / ofInt 0 else ofInt 1 / x, ?_⟩
   simp [powerArray, ticv, chainNpos, chainNneg, chainStep, PArr.set, PArr.get, pyPos, tf_ofInt, tf_mul,
     List.replicate]
 
@@ -16,7 +17,8 @@ theorem ticv_array (x : ℝ) : powerArray x ticv = [1, x, x * x, x * x * x, 1 / 
 theorem visc_s0 (x : ℝ) : pyDot (h0v : List ℝ) (PArr.slice (powerArray x ticv) 0 4) =
     (3777439223453277 / 2251799813685248 : ℝ) * 1 + (4964362905246771 / 2251799813685248 : ℝ) * x
       + (5734491051606083 / 9007199254740992 : ℝ) * (x * x) + (-(8704737503766789 : ℝ) / 36028797018963968) * (x * x * x) := by
-  rw [ticv_array]
+  obtain ⟨last, h⟩ := ticv_array x
+  rw [h]
   simp [pyDot, PArr.slice, h0v, tf_lit, tf_mul, tf_add]
 
 theorem visc_s0_pos (x : ℝ) (h0 : 0 < x) (h1 : x ≤ 13 / 5) :
